@@ -79,8 +79,10 @@ class BehavioralRTLIRGeneratorL2( BehavioralRTLIRGeneratorL1 ):
     return super().visit_Call( node )
 
   def visit_Name( s, node ):
-    # temporary variable
-    if (not node.id in s.closure) and (not node.id in s.globals):
+    # temporary variable or loop variable: a name the block binds itself
+    # is its local variable even if the module has a global of that name
+    if node.id in s.blk.__code__.co_varnames or \
+       ( (not node.id in s.closure) and (not node.id in s.globals) ):
       # check if is a LoopVar or not
       if node.id in s.loop_var_env:
         ret = bir.LoopVar( node.id )
